@@ -47,8 +47,12 @@ RULE = (
     "round trip loses 1 ns; starts 0, 1000, 2014-epoch, 2^61..2^62; photon counts non-zero in discarded samples; the "
     "reduced channel extends up to 4 samples beyond the acquisition on both sides; red channel absent in 20%) + "
     "adversarial int64 arrays for timestamp_mean (quick 4000 / thorough 100000; 1-D and axis=1; span*n on both sides "
-    "of 2^63, values up to 2^63-1, negative offsets). Non-trivial: a kymograph/scan case has at least two ranges, or a "
-    "truncated last line/frame, or delta != dt; a mean case has two distinct values."
+    "of 2^63, values up to 2^63-1, negative offsets) + the public twin of the mean (op kmean: Kymo.timestamps of "
+    "kymographs whose sample period is so long, or whose start so late, that the per-pixel mean works at the edge of "
+    "int64: small scope k<=4, P<=2, <=2 lines, dead<=1, lead<=1 with span*k one step on either side of 2^63, the longest "
+    "period that fits, and starts ending at 2^63-1; random quick 400 / thorough 6000 with k<=8, P<=4, <=3 lines). "
+    "Non-trivial: a kymograph/scan case has at least two ranges, or a truncated last line/frame, or delta != dt; a mean "
+    "case has two distinct values; a kmean case has k>=2."
 )
 TRUSTED = [
     "IEEE double division in Lean's Float equals CPython's (delta = int(1e9/(1e9/dt)) is computed by the model in doubles; the theorems hold for every 1 <= delta <= dt and the oracle checks that bound on the implementation's ranges)",
@@ -56,6 +60,7 @@ TRUSTED = [
     "float64 results (line time, pixel time, duration in seconds) are compared with the model's exact integer nanoseconds within rel 1e-12",
 ]
 ASSUMPTIONS = [
+    "the direct tie to timestamp_mean goes through a private module path (lumicks.pylake.detail.confocal, the anchored place; else any loaded pylake module that still offers the name); when it is out of reach the direct ops answer '?' (ignored by agree/oracle/nontrivial, listed under coverage.private_ties) and the clause stays tied through Kymo.timestamps (op kmean and every kymo/scan case)",
     "info wave and photon channels are Continuous with dt >= 1 and the same start/length (no start repair: F5 is C19's subject)",
     "every pixel has the same number of used samples (the code documents this assumption: pixel_size = argmax(subset)+1); waves violating it are compared with the model only",
     "scan axes have at least 2 pixels (Scan._to_spatial squeezes every length-1 axis; 1-pixel axes are outside the model)",
@@ -78,7 +83,7 @@ def wave_of(case):
     g = case["geom"]
     pixel = [1] * (g["k"] - 1) + [2]
     line = pixel * g["P"] + [0] * g["dead"]
-    if case["op"] == "kymo":
+    if case["op"] in ("kymo", "kmean"):
         iw = [0] * g["lead"] + line * g["lines"] + [0] * g.get("tail", 0)
     else:
         frame = line * g["L"] + [0] * g["fdead"]
@@ -143,21 +148,23 @@ def _meta(axes, num_frames):
 
 
 def build(case, iw, counts):
-    from lumicks.pylake.channel import Continuous, Slice, empty_slice
+    from lumicks.pylake.channel import Continuous, Slice
     from lumicks.pylake.low_level import create_confocal_object
 
     def mk(d):
         return Slice(Continuous(np.asarray(d), case["start"], case["dt"]))
 
-    if case["op"] == "kymo":
+    if case["op"] in ("kymo", "kmean"):
         axes = [(case.get("axis", 0), case["P"])]
         nf = 0
     else:
         # fast axis first; flip = the fast axis has the higher physical axis number
         axes = [(1, case["P"]), (0, case["L"])] if case["flip"] else [(0, case["P"]), (1, case["L"])]
         nf = case.get("nf_meta", 0)
-    red = empty_slice if case.get("red_empty") else mk(counts)
-    return create_confocal_object("c03", mk(np.asarray(iw, dtype=np.uint8)), _meta(axes, nf), red, mk(counts), mk(counts))
+    infowave = mk(np.asarray(iw, dtype=np.uint8))
+    if case.get("red_empty"):  # an absent channel is simply not passed (the documented default)
+        return create_confocal_object("c03", infowave, _meta(axes, nf), green_channel=mk(counts), blue_channel=mk(counts))
+    return create_confocal_object("c03", infowave, _meta(axes, nf), mk(counts), mk(counts), mk(counts))
 
 
 def show_ll(a):
@@ -192,19 +199,54 @@ def _sum_over(chan_start, dt, chan_data, ranges_fn, totals_fn):
     return enc_list([int(round(float(x))) for x in ds.data]) + " " + enc_list([int(round(float(x))) for x in totals_fn()])
 
 
+_TIES = {}  # private name -> (where it was reached | "unreachable", object)
+UNSEEN = "?"  # a private observation that could not be made: never an implementation answer (agree/oracle ignore it)
+
+
+def mean_fn():
+    """The anchored overflow-safe mean.  It lives behind a private module path, so it is looked up where it is anchored,
+    else under its name in any pylake module that is loaded once the confocal classes are (a moved helper); None when
+    it is out of reach (renamed): the direct ops then answer UNSEEN and the clause stays tied through the public
+    Kymo.timestamps (op kmean, and every kymo/scan case)."""
+    if "timestamp_mean" not in _TIES:
+        fn, where = None, "unreachable"
+        try:
+            from lumicks.pylake.detail.confocal import timestamp_mean as fn
+
+            where = "lumicks.pylake.detail.confocal"
+        except (ImportError, AttributeError):
+            import sys
+
+            import lumicks.pylake.low_level  # noqa: F401  (loads kymo, scan and their helpers)
+
+            for name, m in sorted(sys.modules.items()):
+                if name.startswith("lumicks.pylake") and callable(m.__dict__.get("timestamp_mean")):
+                    fn, where = m.__dict__["timestamp_mean"], name
+                    break
+        _TIES["timestamp_mean"] = (where, fn)
+    return _TIES["timestamp_mean"][1]
+
+
 def impl(case):
     op = case["op"]
     if op == "mean":
-        from lumicks.pylake.detail.confocal import timestamp_mean
-
+        timestamp_mean = mean_fn()
+        if timestamp_mean is None:
+            return [UNSEEN]
         return [_try(lambda: str(int(timestamp_mean(np.array(case["a"], dtype=np.int64)))))]
     if op == "meanrows":
-        from lumicks.pylake.detail.confocal import timestamp_mean
-
+        timestamp_mean = mean_fn()
+        if timestamp_mean is None:
+            return [UNSEEN]
         return [_try(lambda: enc_list(timestamp_mean(np.array(case["rows"], dtype=np.int64).reshape(len(case["rows"]), case["w"]), axis=1)))]
     iw = wave_of(case)
     counts = counts_of(case, iw)
     cstart, cdata = channel_of(case, counts)
+    if op == "kmean":
+        k = _try(lambda: build(case, iw, counts))
+        if isinstance(k, str):
+            return [k]
+        return [_try(lambda: show_ll(k.timestamps))]
     if op == "kymo":
         k = _try(lambda: build(case, iw, counts))
         if isinstance(k, str):
@@ -255,6 +297,8 @@ def ops(case):
     counts = counts_of(case, iw)
     cstart, cdata = channel_of(case, counts)
     w = f"{case['start']} {case['dt']} {enc_list(iw)}"
+    if op == "kmean":
+        return [f"c03.kts {w} {case['P']}"]
     if op == "kymo":
         P = case["P"]
         return [
@@ -292,6 +336,8 @@ def _close_ns(ia, ma):
 
 def agree(case, i, ia, ma):
     op = case["op"]
+    if ia == UNSEEN:
+        return True  # a private observation that could not be made says nothing about the code
     if op == "mean":
         return ia == ma.split(" ")[0]
     if op == "meanrows":
@@ -365,8 +411,49 @@ def oracle_mean(vals, ans, what):
     return None
 
 
+def oracle_kmean(case, ans):
+    """per-pixel timestamps at the edge of int64, read from the public Kymo.timestamps: the floor of the mean of the
+    pixel's samples whenever (last - first)*k of the acquisition fits int64, else within the documented split slack"""
+    iw = wave_of(case)
+    pixels = structure(case, iw)
+    if not regular(case, iw, pixels):
+        return None
+    if ans.endswith("Error") or ans.startswith("Error"):
+        return f"kmean: implementation raised {ans}"
+    start, dt, P = case["start"], case["dt"], case["P"]
+    k = len(pixels[0])
+    rows = [[start + i * dt for i in p] for p in pixels]
+    flat = [x for r in rows for x in r]
+    split = (max(flat) - min(flat)) * k > I64MAX
+    got = [[int(x) for x in r.split(",")] for r in ans[1:-1].split(";")] if ans != "[]" else []
+    seen = 0
+    for r in range(len(got)):
+        for l in range(len(got[r])):
+            j, v = l * P + r, got[r][l]
+            if j >= len(rows):
+                if v != 0:
+                    return f"kmean-padding: padded pixel {j} has timestamp {v}"
+                continue
+            seen += 1
+            fl = sum(rows[j]) // k
+            if not split:
+                if v != fl:
+                    return f"kmean-floor: pixel {j} has timestamp {v}, floor of the mean of its samples is {fl}"
+                if not (rows[j][0] <= v <= rows[j][-1]):
+                    return f"kmean-range: pixel {j} timestamp {v} outside {rows[j][0]}..{rows[j][-1]}"
+            elif not (fl - (k - 1) <= v <= fl):
+                return f"kmean-floor-split: pixel {j} has timestamp {v}, floor of the mean is {fl} (k = {k})"
+    if seen != len(rows):
+        return f"kmean-shape: {seen} pixels reported, {len(rows)} exist"
+    return None
+
+
 def oracle(case, ia):
     op = case["op"]
+    if ia and all(a == UNSEEN for a in ia):
+        return None
+    if op == "kmean":
+        return oracle_kmean(case, ia[0])
     if op == "mean":
         a = case["a"]
         if a and max(a) - min(a) > I64MAX:
@@ -531,6 +618,10 @@ def oracle(case, ia):
 
 def nontrivial(case, ia):
     op = case["op"]
+    if ia and all(a == UNSEEN for a in ia):
+        return False
+    if op == "kmean":
+        return case["geom"]["k"] >= 2 and len(structure(case, wave_of(case))) > 0
     if op == "mean":
         return len(set(case["a"])) >= 2
     if op == "meanrows":
@@ -632,6 +723,18 @@ def scan_case(stream, start, dt, lead, k, P, L, dead, fdead, frames, flip, tail=
     return c
 
 
+def kmean_case(stream, start, dt, lead, k, P, dead, lines, tail=0, trunc=None, **kw):
+    """the public twin of the mean: only Kymo.timestamps is observed (ranges and times would leave int64)"""
+    c = kymo_case(stream, start, dt, lead, k, P, dead, lines, tail, trunc, **kw)
+    c["op"] = "kmean"
+    return c
+
+
+def kmean_span(lead, k, P, dead, lines):
+    """(number of samples, index distance first..last used sample) of a complete kymograph wave"""
+    return lead + lines * (P * k + dead), lines * (P * k + dead) - dead - 1
+
+
 MEAN_VALUES = [0, 1, 2, I64MAX // 3, I64MAX // 3 + 2, I64MAX // 2, I64MAX // 2 + 1, I64MAX - 1, I64MAX]
 
 
@@ -693,6 +796,20 @@ def cases(tier, rng):
             truncs = truncs[::2] + [None]
         for tr in truncs:
             yield scan_case("small-scope", 1000, 55 if flip else 3, lead, k, P, L, dead, fdead, frames, flip, 0, tr, nf_meta=0 if dead else frames)
+
+    # ---- exhaustive small scope: the mean through Kymo.timestamps at the edge of int64
+    for k, P, lines, dead, lead in itertools.product((1, 2, 3, 4), (1, 2), (1, 2), (0, 1), (0, 1)):
+        n, span = kmean_span(lead, k, P, dead, lines)
+        dts = {I64MAX // n, I64MAX // n - 1, I64MAX // (2 * n) + 1}     # the longest periods that fit (deep split mode)
+        if span > 0:
+            edge = I64MAX // (k * span)                                # span*dt*k on either side of 2^63
+            dts |= {edge - 1, edge, edge + 1, edge + 2}
+        for dt in sorted(d for d in dts if d >= 1 and n * d <= I64MAX):
+            yield kmean_case("small-scope", 0, dt, lead, k, P, dead, lines)
+            if I64MAX - n * dt > 0:
+                yield kmean_case("small-scope", I64MAX - n * dt, dt, lead, k, P, dead, lines)
+        for dt in (1, 55):                                             # late starts: the last sample is 2^63-1-dt
+            yield kmean_case("small-scope", I64MAX - n * dt, dt, lead, k, P, dead, lines)
 
     # ---- random regular waves
     N = 1000 if quick else 20000
@@ -766,11 +883,47 @@ def cases(tier, rng):
         else:
             yield {"stream": "random-mean", "op": "mean", "a": a, "subseed": i}
 
+    # ---- the mean through Kymo.timestamps at the edge of int64 (public twin of the direct tie)
+    yield from kmean_random(quick, rng)
+
+
+def kmean_random(quick, rng):
+    K = 400 if quick else 6000
+    r = rng.fork("c03-kmean")
+    for i in range(K):
+        sub = r.fork(i)
+        k = sub.choice([1, 2, 2, 3, 4, sub.randint(2, 8)])
+        P = sub.randint(1, 4)
+        lines = sub.randint(1, 3)
+        dead = sub.choice([0, 1, sub.randint(0, 3)])
+        lead = sub.choice([0, 1, 2])
+        n, span = kmean_span(lead, k, P, dead, lines)
+        top = I64MAX // n
+        mode = sub.randint(0, 4)
+        if mode == 0 and span > 0:    # span*dt*k around 2^63
+            dt = I64MAX // (k * span) + sub.choice([-2, -1, 0, 1, 2, sub.randint(-1000, 1000)])
+        elif mode == 1:               # the longest periods that fit
+            dt = top - sub.choice([0, 1, sub.randint(0, 1000)])
+        elif mode == 2:               # anything
+            dt = sub.randint(1, top)
+        else:                         # an ordinary period, late start
+            dt = sub.choice([1, 2, sub.choice(BAD_DT), 12800, sub.randint(1, 10**8)])
+        dt = max(1, min(dt, top))
+        room = I64MAX - n * dt
+        start = sub.choice([0, room, room - min(room, sub.randint(0, 1000)), sub.randint(0, room)])
+        tr = None
+        if sub.chance(0.3):
+            tr = max(lead + k, min(n, sub.randint(lead + k, n)))
+        yield kmean_case("random-kmean", start, dt, lead, k, P, dead, lines, 0, tr, axis=sub.choice([0, 1]),
+                         cseed=sub.randint(0, 9), red_empty=sub.chance(0.2), subseed=i)
+
 
 def extra_coverage(results):
     kinds, errs, dts = {}, {}, {"delta=dt": 0, "delta=dt-1": 0}
     shape = {"single": 0, "multi": 0, "truncated": 0, "complete": 0}
     split = {"split": 0, "no-split": 0}
+    ksplit = {"split": 0, "no-split": 0, "split-below-floor": 0}
+    unseen = 0
     sizes = []
     for r in results:
         c = r["case"]
@@ -778,7 +931,20 @@ def extra_coverage(results):
         for a in r["impl"]:
             if a.endswith("Error"):
                 errs[a] = errs.get(a, 0) + 1
-        if c["op"] in ("kymo", "scan"):
+        unseen += sum(1 for a in r["impl"] if a == UNSEEN)
+        if c["op"] == "kmean":
+            iw = wave_of(c)
+            px = structure(c, iw)
+            if px:
+                kk = len(px[0])
+                ts = [[c["start"] + i * c["dt"] for i in p] for p in px]
+                sp = (ts[-1][-1] - ts[0][0]) * kk > I64MAX
+                ksplit["split" if sp else "no-split"] += 1
+                if sp and r["impl"][0].startswith("["):
+                    vals = sorted(int(x) for x in r["impl"][0].replace(";", ",")[1:-1].split(",") if x)
+                    fl = sorted([sum(t) // kk for t in ts] + [0] * (len(vals) - len(ts)))
+                    ksplit["split-below-floor"] += vals != fl
+        elif c["op"] in ("kymo", "scan"):
             iw = wave_of(c)
             sizes.append(len(iw))
             px = structure(c, iw)
@@ -796,6 +962,13 @@ def extra_coverage(results):
         "delta_kinds": dts,
         "acquisition_shapes": shape,
         "mean_modes": split,
+        "kmean_modes": ksplit,
+        "private_ties": {
+            "label": "private names the harness reaches for, and where it found them (unreachable: renamed/moved - the "
+                     "direct ops answered '?', the public tie through Kymo.timestamps carries the clause)",
+            "lumicks.pylake.detail.confocal.timestamp_mean": _TIES.get("timestamp_mean", ("not requested", None))[0],
+            "unseen_observations": unseen,
+        },
         "wave_samples_max": max(sizes) if sizes else 0,
         "wave_samples_median": sorted(sizes)[len(sizes) // 2] if sizes else 0,
         "exhaustive": False,
